@@ -168,9 +168,17 @@ def judge_eval(ctx, case, r, m):
     return out
 
 
+def harness_line(l):
+    """serde_json refuses input nested deeper than 128 levels; the tagged copy of a deep document (which only the Lean driver
+    reads) is twice as deep as the document, so it is dropped from the harness's copy of long lines"""
+    if len(l) < 1500 or '"tdoc"' not in l: return l
+    c = json.loads(l); c.pop('tdoc', None); c.pop('tdocs', None)
+    return json.dumps(c, ensure_ascii=False)
+
+
 def eval_suite(ctx, name, lines, res, mode='eval'):
     if not lines: return
-    real = run_sharded(HBIN, mode, lines)
+    real = run_sharded(HBIN, mode, [harness_line(l) for l in lines])
     model = run_sharded(MBIN, 'ast' if mode == 'ast' else 'eval', lines)
     assert len(real) == len(model) == len(lines), (name, len(real), len(model), len(lines))
     info = collections.Counter()
@@ -390,8 +398,8 @@ def hist_suite(ctx, name, lines, res):
 # ------------------------------------------------------------------------------------------------ generic (C15)
 def generic_suite(ctx, name, lines, res):
     if not lines: return
-    rv = run_sharded(HBIN, 'eval', lines)
-    rg = run_sharded(HBIN, 'generic', lines)
+    rv = run_sharded(HBIN, 'eval', [harness_line(l) for l in lines])
+    rg = run_sharded(HBIN, 'generic', [harness_line(l) for l in lines])
     model = run_sharded(MBIN, 'eval', lines)
     assert len(rv) == len(rg) == len(model) == len(lines)
     info = collections.Counter()
